@@ -467,6 +467,7 @@ def graph_shapes() -> dict[str, dict[str, list[str]]]:
 		# no imports at all: every output depends on its own source only
 		'flat3': {'app.a': [], 'app.b': [], 'lib.a': []},
 		'flatsub': {'app.x': [], 'app.sub.x': [], 'lib.x': [], 'lib.sub.x': []},
+		'nestpkg': {'app.x': [], 'lib.app.x': [], 'lib.y': []},
 	}
 
 
@@ -733,6 +734,26 @@ FOREIGN_CONTENTS = [
 ]
 
 
+def gen_colliding_dirs(rng: random.Random, graph: dict[str, list[str]]) -> list[str] | None:
+	"""output_dirs built from the module set so that two modules are candidates for one path (prefix rule that strips the directory of
+	one module onto the directory of another with the same file name; glob rule onto the directory prefix of a longer module path)."""
+	fallback = rng.choice(['out', './out', 'out2', 'out/sub'])
+	mods = list(graph)
+	cands: list[list[str]] = []
+	for a in mods:
+		for b in mods:
+			if a == b:
+				continue
+			da, na = a.rsplit('.', 1)
+			db, nb = b.rsplit('.', 1)
+			if na == nb and da != db:
+				cands.append([f"{da.replace('.', '/')}/:{fallback}/{db.replace('.', '/')}", fallback])
+			if b.endswith('.' + a):
+				prefix = b[:-len(a) - 1].replace('.', '/')
+				cands.append([f"{da.replace('.', '/')}/*:{fallback}/{prefix}", fallback])
+	return rng.choice(cands) if cands else None
+
+
 def gen_variants(rng: random.Random, graph: dict[str, list[str]]) -> dict[str, int]:
 	return {m: rng.randrange(N_VARIANTS) for m in graph}
 
@@ -820,7 +841,7 @@ def stream_runner(ctx: Ctx) -> Stream:
 		for rec in load_corpus():
 			if rec.get('stream') == 'runner' or rec.get('search') in ('fixpoint', 'force'):
 				cases.append(case_runner(ctx, rng, 0, fixed=rec))
-		for _ in range(ctx.scale(10, 120)):
+		for _ in range(ctx.scale(18, 160)):
 			cases.append(case_runner(ctx, rng, ctx.scale(9, 16)))
 	st = correspond_skip('runner', cases, classify=lambda d, r: [d['shape'], f"dirs:{len(d['dirs'])}", *d['kinds']])
 	st.note = ('real TranspileApp in temporary projects (two packages, chains / diamond / flat graphs); ops edit / run / run -f / rm-output / set-dirs '
@@ -828,3 +849,454 @@ def stream_runner(ctx: Ctx) -> Stream:
 		'observation per op: status, outputs read during target selection, outputs written in order (audit hook, cross-checked with st_mtime_ns), '
 		'first line of every output; the model receives the md5 of each source as its opaque source token')
 	return st
+
+
+# ---------------------------------------------------------------------------------------------
+# search (real code only)
+
+
+def matched_rule(dirs: list[str], lang: str, module: str, cwd: str) -> str:
+	"""Which kind of entry of output_dirs decides the path of `module` — found with the real function alone: the first k for which
+	the rules dirs[:k] (followed by a sentinel fallback) no longer send the module to the sentinel."""
+	sentinel = 'zz-sentinel-zz'
+	for k in range(1, len(dirs)):
+		r = real_output_filepath([*dirs[:k], sentinel], lang, module, cwd)
+		if not r.startswith('ok '):
+			return 'error'
+		if sentinel not in common.unhx(r[3:]):
+			return 'glob' if dirs[k - 1].split(':')[0].endswith('*') and common.unhx(r[3:]).endswith(module.replace('.', '/') + '.' + (lang.split(':')[1] if len(lang.split(':')) == 2 else lang.split(':')[0])) else 'prefix'
+	return 'fallback'
+
+
+def collision_key(dirs: list[str], lang: str, mods: list[str], cwd: str) -> str:
+	kinds = {matched_rule(dirs, lang, m, cwd) for m in mods}
+	if 'prefix' in kinds:
+		return 'output-path-collision-prefix'
+	if 'glob' in kinds:
+		return 'output-path-collision-glob'
+	return 'output-path-collision-normalisation'
+
+
+def diagnose_fixpoint(ctx: Ctx, case: RealCase, a: tuple[str, dict[str, bytes], list[str]], b: tuple[str, dict[str, bytes], list[str]]) -> tuple[str, str]:
+	"""Names the failing input class of `plain run` ≠ `forced run` (a = plain, b = forced: status, files, files written)."""
+	from rogw.tranp.data.meta.header import MetaHeader
+	if a[0] != b[0]:
+		return f'status-divergence:{a[0]}/{b[0]}', f'plain run ends with {a[0]}, forced run with {b[0]}'
+	diff = sorted(k for k in set(a[1]) | set(b[1]) if a[1].get(k) != b[1].get(k))
+	rel = diff[0]
+	path = os.path.join(case.proj.root, rel)
+	at = [m for m in case.graph if case.real_path(m) == f'ok {hx(path)}']
+	detail = f'{rel}: ' + _first_diff(a[1].get(rel, b''), b[1].get(rel, b''))
+	if len(at) >= 2:
+		return collision_key(case.proj.output_dirs, case.proj.output_language, at, case.proj.root), f'modules {at} share the output path {rel}; {detail}'
+	if not at:
+		return 'orphan-output-differs', f'{rel} is the output path of no module; {detail}'
+	m = at[0]
+	if rel not in a[1]:
+		return 'output-missing-after-plain-run', f'{rel} (module {m}) does not exist after the plain run'
+	if path in a[2]:
+		return 'regenerated-output-differs', f'module {m} was regenerated by both runs with different results; {detail}'
+	try:
+		old = MetaHeader.try_from_content(a[1][rel].decode('utf-8', 'replace'))
+	except Exception as e:  # noqa: BLE001
+		return f'stale-output-unreadable-header:{common.exc_enum(e)}', detail
+	own_unchanged = old is not None and old.module_meta == {'hash': case.token(m), 'path': m}
+	snap = case.written_with.get(path, {})
+	changed_deps = sorted(d for d in closure(case.graph, m) if snap.get(d) != case.source(d))
+	if own_unchanged and changed_deps:
+		return 'stale-dependant-output', (f"module {m}: own source hash unchanged, imported module(s) {changed_deps} edited since {rel} was written; "
+			f'the plain run keeps the old output; {detail}')
+	return 'stale-output-unexplained', f'module {m} (own source unchanged: {own_unchanged}, edited imports: {changed_deps}); {detail}'
+
+
+def _first_diff(x: bytes, y: bytes) -> str:
+	la, lb = x.decode('utf-8', 'replace').split('\n'), y.decode('utf-8', 'replace').split('\n')
+	for p, q in zip(la, lb):
+		if p != q:
+			return f'{p.strip()[:120]!r} vs {q.strip()[:120]!r}'
+	return f'{len(la)} vs {len(lb)} lines'
+
+
+def probe_fixpoint(ctx: Ctx, case: RealCase, again: list[str] | None = None) -> tuple[tuple[str, dict[str, bytes], list[str]], tuple[str, dict[str, bytes], list[str]]]:
+	"""The law at the current project state: a plain and a forced run, each on its own clone of the whole state (incl. caches).
+	`again` receives what a second plain run right after the first one writes (must be nothing: no regeneration is needed)."""
+	out = []
+	for force in (False, True):
+		clone = case.adopt(case.proj.clone(os.path.realpath(ctx.tmpdir('tranp-c06-probe-'))))
+		try:
+			status, _, writes, _ = clone.run(force)
+			files = clone.proj.output_files()
+			if not force and again is not None and status == 'ok':
+				st2, _, w2, _ = clone.run(False)
+				again.extend([os.path.relpath(p, clone.proj.root) for p in w2] if st2 == 'ok' else [f'second run: {st2}'])
+				files = files if not w2 else files		# the comparison uses the state after the first run
+		except Exception as e:  # noqa: BLE001 - rule 14: an exception of the real code inside the oracle is an outcome
+			status, writes, files = f'oracle-exception:{common.exc_enum(e)}', [], {}
+		# paths relative to the clone are comparable; rewrite written paths to the case's root
+		out.append((status, files, [os.path.join(case.proj.root, os.path.relpath(p, clone.proj.root)) for p in writes]))
+		clone.dispose()
+	return out[0], out[1]
+
+
+def cold_forced(ctx: Ctx, case: RealCase) -> dict[str, bytes]:
+	clone = case.adopt(case.proj.clone(os.path.realpath(ctx.tmpdir('tranp-c06-cold-'))))
+	clone.proj.clear_cache()
+	shutil.copytree(cache_template(ctx), os.path.join(clone.proj.root, '.cache'), dirs_exist_ok=True, copy_function=shutil.copy2)
+	clone.run(True)
+	files = clone.proj.output_files()
+	clone.dispose()
+	return files
+
+
+def fixpoint_history(ctx: Ctx, rng: random.Random, res: SearchResult, hist: Counter[str], seen: set[str], plan: dict[str, Any] | None,
+		flat: bool, n_ops: int, budget: list[int]) -> None:
+	if plan is not None:
+		shape, variants, dirs, lang = plan['shape'], plan['variants'], plan['dirs'], plan.get('lang', 'cpp:h')
+	else:
+		shapes = [s for s, g in graph_shapes().items() if (not any(g.values())) == flat]
+		shape = rng.choice(shapes)
+		variants = gen_variants(rng, graph_shapes()[shape])
+		dirs, lang = ['./out'], 'cpp:h'
+	case = RealCase(ctx, shape, variants, dirs, None, lang)
+	directed: list[list[Any]] = []
+	if plan is None:
+		r = rng.random()
+		cd = gen_colliding_dirs(rng, case.graph) if r < 0.3 else None
+		if cd is not None and case.safe(cd):
+			case.proj.output_dirs = cd
+			case.proj.write_config()
+		elif r < 0.7:
+			for _ in range(20):
+				d = gen_safe_dirs(rng)
+				if case.safe(d):
+					case.proj.output_dirs = d
+					case.proj.write_config()
+					break
+		if not flat and rng.random() < 0.5:
+			# a run, then a change of the declared type in a module that others import
+			imported = sorted({d for ds in case.graph.values() for d in ds})
+			d = rng.choice(imported)
+			directed = [['run', rng.choice([0, 1])], ['edit', d, (case.variants[d] + rng.randint(1, 3)) % 4 + 4 * (case.variants[d] // 4)]]
+	if not case.safe():
+		case.dispose()
+		raise common.InfraError('C06: fix-point plan is not confined to the project directory')
+	init_dirs = list(case.proj.output_dirs)
+	done: list[list[Any]] = []
+	ops = plan['ops'] if plan is not None else None
+	total = len(ops) if ops is not None else n_ops
+	for i in range(total + 1):
+		# probe at the end and (randomly) in between; never right after a forced run of the same state without change
+		if i == total or (ops is None and done and done[-1][0] != 'run' and rng.random() < 0.45):
+			if budget[0] <= 0 and plan is None:
+				break
+			budget[0] -= 3
+			again: list[str] = []
+			a, b = probe_fixpoint(ctx, case, again)
+			res.cases += 1
+			seen.add(json.dumps([shape, variants, init_dirs, done], sort_keys=True))
+			hist[f"{shape}:{'equal' if (a[0], a[1]) == (b[0], b[1]) else 'differs'}"] += 1
+			replay = {'search': 'fixpoint', 'shape': shape, 'variants': variants, 'dirs': init_dirs, 'lang': lang, 'ops': list(done)}
+			if b[0] != 'ok':
+				# generated modules are valid and the configuration is well-formed: a forced run has to succeed
+				res.findings.append(Finding(key=f'run-fails:{b[0]}', what=f'forced run over a valid project fails with {b[0]} (plain run: {a[0]})', replay=replay))
+				hist[f'finding:run-fails'] += 1
+				break
+			if again and (a[0], a[1]) == (b[0], b[1]):
+				# files that need no regeneration are left untouched: right after a plain run nothing needs regeneration
+				by_path: dict[str, list[str]] = {}
+				for m in case.graph:
+					by_path.setdefault(case.real_path(m), []).append(m)
+				shared = sorted(ms for ms in by_path.values() if len(ms) > 1)
+				key = collision_key(case.proj.output_dirs, case.proj.output_language, shared[0], case.proj.root) if shared else 'second-run-rewrites'
+				res.findings.append(Finding(key=key, what=f'a second plain run right after a plain run rewrites {again}' +
+					(f': modules {shared[0]} share an output path, each plain run rewrites the one whose header is not in the file' if shared else ''), replay=replay))
+				hist[f'finding:{key}'] += 1
+				break
+			if (a[0], a[1]) != (b[0], b[1]):
+				key, why = diagnose_fixpoint(ctx, case, a, b)
+				cold = cold_forced(ctx, case)
+				note = 'the forced run from an emptied (library-seeded) cache writes the same as the forced run from the current cache' if cold == b[1] else \
+					'NOTE: the forced run from an emptied cache differs from the forced run over the current cache (symbol-cache staleness, property C05); the comparison above uses one cache state for both runs'
+				res.findings.append(Finding(key=key, what=f'plain run ≠ forced run on the same project state: {why}; {note}',
+					replay={'search': 'fixpoint', 'shape': shape, 'variants': variants, 'dirs': init_dirs, 'lang': lang, 'ops': list(done)}))
+				hist[f'finding:{key}'] += 1
+				break
+		if i == total:
+			break
+		op = ops[i] if ops is not None else (directed.pop(0) if directed else next_op(rng, case, with_put=False, with_force=False))
+		case.apply(op)
+		done.append(op)
+	if len(res.samples) < 2:
+		res.samples.append({'shape': shape, 'variants': variants, 'dirs': init_dirs, 'ops': done})
+	case.dispose()
+
+
+def search_fixpoint(ctx: Ctx) -> SearchResult:
+	rng = ctx.sub_rng('fixpoint')
+	res = SearchResult('files_after(history + [run]) == files_after(history + [run -f]): both runs on clones of one project state (sources, outputs, caches)')
+	hist: Counter[str] = Counter()
+	seen: set[str] = set()
+	budget = [ctx.scale(70, 1100)]
+	with ctx.timed('search_fixpoint'):
+		for rec in load_corpus():
+			if rec.get('search') == 'fixpoint':
+				fixpoint_history(ctx, rng, res, hist, seen, rec, False, 0, budget)
+		i = 0
+		while budget[0] > 0:
+			# graphs without imports: every output depends on its own source only — here the law must hold exactly
+			fixpoint_history(ctx, rng, res, hist, seen, None, flat=(i % 2 == 0), n_ops=ctx.scale(8, 14), budget=budget)
+			i += 1
+	res.distinct = len(seen)
+	res.histogram = dict(hist)
+	res.note = ('histories of edit / run / run -f / rm-output / set-dirs (configurations confined to the project) over import graphs and over graphs without imports; '
+		'a difference is classified by the real code alone: shared output path (collision-prefix/glob/normalisation), own hash unchanged + edited import (stale-dependant-output), …')
+	return res
+
+
+def search_roundtrip(ctx: Ctx) -> SearchResult:
+	from rogw.tranp.data.meta.header import MetaHeader
+	rng = ctx.sub_rng('roundtrip')
+	res = SearchResult("MetaHeader.try_from_content(pre + h.to_header_str() + '\\n' + body) == h (real __eq__, and equal to_json) on generated metas")
+	hist: Counter[str] = Counter()
+	seen: set[str] = set()
+	nasty = [*NASTY, '\ud800', '\udfff']
+	for rec in load_corpus():
+		if rec.get('search') == 'roundtrip':
+			pass
+	for _ in range(ctx.scale(1500, 30000)):
+		def txt(n: int = 4) -> str:
+			return ''.join(rng.choice(nasty) for _ in range(rng.randint(0, n)))
+		shape = rng.random()
+		if shape < 0.75:
+			m: Any = {'hash': rng.choice([hashlib.md5(txt().encode('utf-8', 'surrogatepass')).hexdigest(), txt()]), 'path': rng.choice(['app.a', txt()])}
+			t: Any = {'version': rng.choice(['1.0.0', txt()]), 'module': rng.choice(['rogw.tranp.implements.cpp.transpiler.py2cpp.Py2Cpp', txt()])}
+			ver: Any = rng.choice([None, '1.0.0', txt(), ''])
+			kind = 'shaped'
+		else:
+			m, t, ver = gen_json(rng, 3), gen_json(rng, 2), gen_version(rng)
+			kind = 'generic'
+		pre = rng.choice(['', '// ', '/* ', '# ', '\n// ', txt(3).replace(MetaHeader.Tag, '@tranp_meta')])
+		if MetaHeader.Tag in pre:
+			pre = '// '
+		body = rng.choice(['', '#pragma once\n', txt(6), '}\n', '// @tranp.meta: {}\n', 'int f() { return 1; }\n'])
+		res.cases += 1
+		hist[kind] += 1
+		outcome = 'ok'
+		try:
+			h = MetaHeader(m, t, ver)
+			content = pre + h.to_header_str() + '\n' + body
+			seen.add(hashlib.sha1(content.encode('utf-8', 'surrogatepass')).hexdigest())
+			h2 = MetaHeader.try_from_content(content)
+			if h2 is None:
+				outcome = 'none'
+			elif not (h2 == h) or h2.to_json() != h.to_json():
+				outcome = 'differs'
+		except Exception as e:  # noqa: BLE001 - rule 14
+			outcome = common.exc_enum(e)
+		if outcome != 'ok':
+			res.findings.append(Finding(key=f'header-roundtrip:{outcome}', what=f'header of module meta {m!r} is not read back ({outcome})',
+				replay={'search': 'roundtrip', 'module': m, 'transpiler': t, 'version': ver, 'pre': pre, 'body': body}))
+			hist[f'finding:{outcome}'] += 1
+	# the documented edge (not a finding: the template always ends the header line): header as the last line without line break
+	try:
+		MetaHeader.try_from_content('// ' + MetaHeader({'hash': 'h', 'path': 'p'}, {'version': '1', 'module': 'm'}).to_header_str())
+		hist['edge:no-newline-ok'] += 1
+	except Exception as e:  # noqa: BLE001
+		hist[f'edge:no-newline-{common.exc_enum(e)}'] += 1
+	res.distinct = len(seen)
+	res.histogram = dict(hist)
+	res.note = 'strings with quotes, backslashes, braces, the tag, control / non-ASCII / non-BMP characters and lone surrogates; prefixes never contain the tag; bodies may'
+	return res
+
+
+def search_paths(ctx: Ctx) -> SearchResult:
+	rng = ctx.sub_rng('paths-inj')
+	res = SearchResult('distinct module paths never share an output path: real Runner.output_filepath on generated module sets × output_dirs (no file is written)')
+	hist: Counter[str] = Counter()
+	seen: set[str] = set()
+	base = os.path.realpath(ctx.tmpdir('tranp-c06-inj-'))
+	plans: list[tuple[list[str], str, list[str]]] = []
+	for rec in load_corpus():
+		if rec.get('search') == 'paths':
+			plans.append((rec['dirs'], rec['lang'], rec['modules']))
+	for _ in range(ctx.scale(700, 12000)):
+		plans.append((gen_dirs(rng, malformed=False), rng.choice(['cpp:h', 'cpp:h', 'h', 'cpp:hpp']), rng.sample(MODULE_PATHS, rng.randint(2, 6))))
+	# the shipped configuration: fallback only
+	plans.append((['./'], 'cpp:h', list(MODULE_PATHS)))
+	for dirs, lang, mods in plans:
+		res.cases += 1
+		seen.add(json.dumps([dirs, lang, sorted(mods)]))
+		outs = {m: real_output_filepath(dirs, lang, m, base) for m in mods}
+		bad = sorted({o for o in outs.values() if not o.startswith('ok ')})
+		if bad:
+			# every generated entry is `condition:directory` over [A-Za-z0-9_/.*-]: the real function has no reason to raise
+			hist['error'] += 1
+			if sum(1 for f in res.findings if f.key.startswith('output-path-error')) < 3:
+				res.findings.append(Finding(key=f'output-path-error:{bad[0]}', what=f'output_dirs {dirs}: output_filepath raises {bad} for a well-formed configuration',
+					replay={'search': 'paths', 'dirs': dirs, 'lang': lang, 'modules': mods}))
+			continue
+		by_path: dict[str, list[str]] = {}
+		for m, o in outs.items():
+			by_path.setdefault(o, []).append(m)
+		dup = sorted(ms for ms in by_path.values() if len(ms) > 1)
+		hist['collision' if dup else 'injective'] += 1
+		hist[f'rules:{len(dirs)}'] += 1
+		if dup:
+			key = collision_key(dirs, lang, dup[0], base)
+			hist[f'finding:{key}'] += 1
+			if sum(1 for f in res.findings if f.key == key) < 3:
+				res.findings.append(Finding(key=key, what=f'output_dirs {dirs}: modules {dup[0]} map to the same output path {common.unhx(outs[dup[0][0]][3:])}',
+					replay={'search': 'paths', 'dirs': dirs, 'lang': lang, 'modules': dup[0]}))
+	res.distinct = len(seen)
+	res.histogram = dict(hist)
+	return res
+
+
+def force_case(ctx: Ctx, shape: str, variants: dict[str, int], force_cfg: bool | None, pre_ops: list[list[Any]]) -> tuple[bool, str, dict[str, Any]]:
+	"""`run -f` must invoke the Writer for every module. Returns (violated, description, replay)."""
+	case = RealCase(ctx, shape, variants, ['./out'], force_cfg)
+	replay = {'search': 'force', 'shape': shape, 'variants': variants, 'dirs': ['./out'], 'force_cfg': force_cfg, 'ops': [*pre_ops, ['run', 1]]}
+	try:
+		for op in pre_ops:
+			case.apply(op)
+		status, _, writes, _ = case.run(True)
+		expected = sorted(common.unhx(case.real_path(m)[3:]) for m in case.graph)
+		missing = [os.path.relpath(p, case.proj.root) for p in expected if p not in writes]
+		if status != 'ok':
+			return True, f'run -f fails with {status}', replay
+		if missing:
+			return True, f"config.yml says `force: {str(force_cfg).lower()}`; `run -f` rewrote {len(writes)} of {len(expected)} outputs (not rewritten: {missing})", replay
+		return False, '', replay
+	finally:
+		case.dispose()
+
+
+def search_force(ctx: Ctx) -> SearchResult:
+	rng = ctx.sub_rng('force')
+	res = SearchResult('`-f` regenerates every module whatever the config file says (config force key absent / true / false), after arbitrary earlier runs')
+	hist: Counter[str] = Counter()
+	seen: set[str] = set()
+	plans: list[tuple[str, dict[str, int], bool | None, list[list[Any]]]] = []
+	for rec in load_corpus():
+		if rec.get('search') == 'force':
+			plans.append((rec['shape'], rec['variants'], rec.get('force_cfg'), [op for op in rec['ops'][:-1]]))
+	for i in range(ctx.scale(3, 24)):
+		shape = rng.choice(list(graph_shapes()))
+		pre: list[list[Any]] = [['run', rng.choice([0, 1])]] if rng.random() < 0.8 else []
+		if rng.random() < 0.5:
+			pre.append(['edit', rng.choice(list(graph_shapes()[shape])), rng.randrange(N_VARIANTS)])
+		plans.append((shape, gen_variants(rng, graph_shapes()[shape]), [None, True, False][i % 3], pre))
+	with ctx.timed('search_force'):
+		for shape, variants, force_cfg, pre in plans:
+			res.cases += 1
+			seen.add(json.dumps([shape, variants, force_cfg, pre], sort_keys=True))
+			try:
+				bad, why, replay = force_case(ctx, shape, variants, force_cfg, pre)
+			except common.InfraError:
+				raise
+			except Exception as e:  # noqa: BLE001 - rule 14
+				bad, why, replay = True, f'oracle exception {common.exc_enum(e)}: {e}', {'search': 'force', 'shape': shape, 'variants': variants, 'force_cfg': force_cfg, 'ops': pre}
+			hist[f'force_cfg={force_cfg}:{"violated" if bad else "ok"}'] += 1
+			if bad:
+				key = 'config-force-overrides-flag' if force_cfg is False and 'rewrote' in why else f'forced-run-incomplete:{force_cfg}'
+				res.findings.append(Finding(key=key, what=why, replay=replay))
+	res.distinct = len(seen)
+	res.histogram = dict(hist)
+	return res
+
+
+# ---------------------------------------------------------------------------------------------
+
+
+STATEMENTS = {
+	'json_no_newline': 'to_json() (the json.dumps printer, all JSON values without floats) never contains a raw line break',
+	'json_ends_with_brace': 'to_json() ends with the closing brace of its top-level object',
+	'header_slice': "for every header, body and every prefix in which the tag does not start, the text try_from_content hands to from_json is exactly ' ' + to_json()",
+	'header_rt': "try_from_content(pre + to_header_str() + '\\n' + body) == header, given that json.loads decodes this header's JSON (parser not modelled)",
+	'header_rt_no_newline_counterexample': 'without a line break after the header line the slice loses the closing brace (find() = -1 is taken as an end bound by rfind): statement false',
+	'regen': 'target selection: a module is regenerated iff it is listed and (effective force ∨ no file ∨ no header ∨ recorded header identity ≠ current); order kept',
+	'untouched': 'a path the Writer is not invoked with keeps bytes and mtime; the Writer is invoked only with paths of selected targets',
+	'force_flag_counterexample': "`-f` does not force when the config file has `force: false` (config.get('force', args.force)): statement false",
+	'force_flag_partial': 'without a force key in the config file the flag decides, and run -f writes every module',
+	'fixpoint_counterexample': 'two modules, b imports c: run; edit c; a plain run keeps b.h, a forced run rewrites it — the fix-point law is false (header hashes own source only)',
+	'fixpoint_partial': 'for ALL histories of edit/run/run -f/rm-output/set-dirs/set-force from an empty output tree the plain run leaves the contents a forced run leaves, when outputs depend on the own source only, md5 is collision-free, paths are pairwise distinct',
+	'fixpoint_shared_path_counterexample': 'fixpoint_partial without pairwise distinct paths is false: two modules at one path make every plain run rewrite the other module (targets are selected up front), unlike a forced run',
+	'paths_iff': 'the decidable NoOverlap check ⇔ every listed module has a path and different list positions have different paths',
+	'paths_counterexample': "prefix rule 'app/:out' + fallback 'out' sends app.x and x to the same file: path injectivity is false in general",
+	'paths_fallback_only': 'with a fallback-only output_dirs (the shipped configuration) distinct clean module paths never share an output path — for all module paths, directories, absolute cwds',
+}
+
+
+def build_streams(ctx: Ctx) -> list[Stream]:
+	return [stream_strprims(ctx), stream_header(ctx), stream_paths(ctx), stream_runner(ctx)]
+
+
+def build_searches(ctx: Ctx) -> list[SearchResult]:
+	return [search_roundtrip(ctx), search_paths(ctx), search_force(ctx), search_fixpoint(ctx)]
+
+
+def run(ctx: Ctx) -> int:
+	proof = common.prove(ctx, PROP, leanchecker=ctx.thorough)
+	with ctx.timed('correspondence'):
+		streams = build_streams(ctx)
+	with ctx.timed('search'):
+		searches = build_searches(ctx)
+	return common.finish(ctx, proof, streams, searches,
+		statements=STATEMENTS,
+		partial={
+			'proved': 'header read-back (header_slice, header_rt over the real json.dumps printer; json_no_newline, json_ends_with_brace), regeneration decision (regen), '
+				'untouched files (untouched), path-injectivity check (paths_iff, paths_fallback_only), fix-point for own-source-only outputs over all histories (fixpoint_partial), '
+				'flag semantics (force_flag_partial) — all on the model',
+			'proved_false': 'fix-point law in general (fixpoint_counterexample: stale dependants), `-f` under `force: false` (force_flag_counterexample), '
+				'path injectivity under prefix/glob rules (paths_counterexample), header read-back without trailing line break (header_rt_no_newline_counterexample)',
+			'correspondence_only': 'json.loads (driver-side parser tied by the header stream), the transpiler body, file-system semantics (file vs directory conflicts are excluded from generated configurations)',
+			'search_only': 'that real outputs depend on imported modules (fix-point search on import graphs); that the law holds on graphs without imports',
+		},
+		assumptions=[
+			'md5 is collision-free on the sources and header texts of a history (hypotheses HashInj / IdInj)',
+			"json.loads decodes the headers the runner itself writes (hypothesis LoadsSound; the JSON parser is not modelled)",
+			'glob conditions use only [A-Za-z0-9_/-.*]: other regex metacharacters answer out-of-model',
+			'JSON values without floats / NaN / lone surrogates',
+		],
+		trusted=['posixpath.join/normpath/abspath and str.find/rfind/slicing are modelled by hand and tied by the strprims and paths streams',
+			'yaml loading of config.yml, glob order of include_module_paths (taken from the real function), Jinja rendering of entrypoint.j2 (first line observed)'])
+
+
+def replay(ctx: Ctx, path: str) -> int:
+	with open(path, encoding='utf-8') as f:
+		rec = json.load(f)
+	print(json.dumps(rec, indent=1, ensure_ascii=False)[:3000])
+	inp = rec.get('input', rec)
+	kind = inp.get('search')
+	if rec.get('kind') == 'proof-or-correspondence-broken' or kind is None:
+		print('replay: re-running the full check with the recorded seed')
+		return run(Ctx(PROP, rec.get('tier', 'quick'), int(rec.get('seed', 0))))
+	res = SearchResult(f'replay:{kind}')
+	hist: Counter[str] = Counter()
+	if kind == 'fixpoint':
+		fixpoint_history(ctx, ctx.sub_rng('replay'), res, hist, set(), inp, False, 0, [10])
+	elif kind == 'force':
+		bad, why, _ = force_case(ctx, inp['shape'], inp['variants'], inp.get('force_cfg'), inp['ops'][:-1])
+		if bad:
+			res.findings.append(Finding('replay', why, inp))
+	elif kind == 'paths':
+		base = os.path.realpath(ctx.tmpdir('tranp-c06-inj-'))
+		outs = {m: real_output_filepath(inp['dirs'], inp['lang'], m, base) for m in inp['modules']}
+		print({m: (common.unhx(o[3:]) if o.startswith('ok ') else o) for m, o in outs.items()})
+		if len(set(outs.values())) < len(outs):
+			res.findings.append(Finding('replay', 'modules share an output path', inp))
+	elif kind == 'roundtrip':
+		from rogw.tranp.data.meta.header import MetaHeader
+		try:
+			h = MetaHeader(inp['module'], inp['transpiler'], inp['version'])
+			h2 = MetaHeader.try_from_content(inp['pre'] + h.to_header_str() + '\n' + inp['body'])
+			if h2 is None or not (h2 == h):
+				res.findings.append(Finding('replay', 'header not read back', inp))
+		except Exception as e:  # noqa: BLE001
+			res.findings.append(Finding('replay', f'{common.exc_enum(e)}: {e}', inp))
+	for fd in res.findings:
+		print(f'REPRODUCED: {fd.key}: {fd.what}')
+	if not res.findings:
+		print('not reproduced')
+	ctx.cleanup()
+	return 1 if res.findings else 0
